@@ -81,6 +81,23 @@ fn check_align(align: u16, prelude: &(&'static str, Vec<Call>), name_len: usize,
         st.viol(format!("align/panic/{}/{}", c.opname(), panic_site(&r.show())), format!("align {align} after {} (name {name_len} bytes, large {large}): {} panicked: {}", prelude.0, c.opname(), r.show()), case(), order);
         return;
     }
+    // the same program into a sink that accepts only a few bytes per write call (legal for io::Write): every clause below
+    // must hold there too, which is implied by the produced archive being byte-identical
+    if !prelude.0.starts_with("append:") && (matches!(prelude.0, "empty" | "30-byte-entry" | "65500-byte-entry") || align % 64 == 5) {
+        for chunk in [7usize, 4096] {
+            let (res2, bytes2) = exec_chunked(&calls, &[], chunk, 0);
+            st.evals += 1;
+            if res2 != res || bytes2 != bytes {
+                st.class("SHORT-WRITES-CHANGE-ALIGNED-ARCHIVE");
+                let what = match res2.iter().zip(&res).position(|(a, b)| a != b) {
+                    Some(i) => format!("call {} ({}) gives {} instead of {}", i, calls[i].opname(), res2[i].show(), res[i].show()),
+                    None => format!("archive bytes differ ({} vs {} bytes)", bytes2.len(), bytes.len()),
+                };
+                st.viol("align/short-writes-change-archive", format!("align {align} after {} (name {name_len} bytes, large {large}, method {method}), sink accepting {chunk} bytes per write: {what}", prelude.0), json!({"kind": "align", "align": align, "prelude": prelude.0, "name_len": name_len, "large": large, "method": method, "sink_chunk": chunk}), order);
+                return;
+            }
+        }
+    }
     match &res[at] {
         Res::Err(_) => {
             st.class(if align <= 4096 { "refused-small-align" } else { "refused" });
@@ -319,6 +336,47 @@ fn check_extra_in(local: &[u8], central: &[u8], variant: u8, large: bool, st: &m
         Err(e) => {
             ok = false;
             st.viol("extra/unreadable", format!("{what}: {e:?}"), case(), order)
+        }
+    }
+    let cheap = local.len() + central.len() < 300;
+    if ok && ((cheap && order % 8 == 0) || order % 64 == 0) {
+        // (a) a sink that accepts only a few bytes per write call must end up with the same archive
+        if !prelude.starts_with("append:") {
+            for chunk in if cheap { vec![1usize, 7, 100] } else { vec![4096usize] } {
+                let (res2, bytes2) = exec_chunked(&calls, &[], chunk, 0);
+                st.evals += 1;
+                if res2 != res || bytes2 != bytes {
+                    ok = false;
+                    st.viol(format!("extra/short-writes-change-archive/{vname}"), format!("{what} ({vname}, large {large}): into a sink accepting {chunk} bytes per write the {} (local {}, central {})", if res2 != res { "call results differ" } else { "archive bytes differ" }, show_x(&want_local), show_x(&want_central)), case(), order);
+                    break;
+                }
+            }
+        }
+        // (b) the archive re-opened for append, an aligned entry added, finished again: the central part is still returned verbatim
+        let more = vec![Call::StartAligned { name: "later".into(), opts: FOpts::m(0), align: 32 }, Call::Write(b"added in a later session".to_vec()), Call::Finish];
+        let (res3, bytes3) = exec_append(&bytes, &more, &[]);
+        st.evals += 1;
+        if let Some(i) = res3.iter().position(|r| !r.is_ok()) {
+            ok = false;
+            st.viol(format!("extra/append-round-failed/{vname}"), format!("{what} ({vname}, large {large}): re-opening the archive for append: step {i} gave {}", res3[i].show()), case(), order);
+        } else {
+            match observe(&bytes3, None, 1 << 20) {
+                Ok(o) => match o.entries.iter().find(|g| g.name == "x") {
+                    Some(g) if PEntry::extra_without_zip64(&g.extra).as_deref() == Some(&want_central[..]) && g.content.as_ref().ok() == Some(&content) => {}
+                    Some(g) => {
+                        ok = false;
+                        st.viol(format!("extra/changed-by-append-round/{vname}"), format!("{what} ({vname}, large {large}): after the archive was re-opened for append and finished again the reader returns extra_data() {} (supplied central part {}), content ok {}", hex(&g.extra), show_x(&want_central), g.content.as_ref().ok() == Some(&content)), case(), order);
+                    }
+                    None => {
+                        ok = false;
+                        st.viol("extra/lost-by-append-round", format!("{what}: entry missing after an append round"), case(), order)
+                    }
+                },
+                Err(e) => {
+                    ok = false;
+                    st.viol("extra/unreadable-after-append-round", format!("{what}: {e:?}"), case(), order)
+                }
+            }
         }
     }
     st.class(if ok { "accepted-verbatim" } else { "EXTRA-MISMATCH" });
